@@ -94,7 +94,7 @@ class C08(Pipeline):
         ntx = sum(e["ntx"] for e in blocks)
         if nok == 0 or nok == ntx:
             self._vacuity.append("vacuous drive: %d of %d transactions succeeded (both outcomes are needed)" % (nok, ntx))
-        if len({e["whash"] for e in events if e["act"] == "Init"}) != 1:
+        if len({e["whash"] for e in events if e["act"] == "Init" and e["args"].get("world", "std") == "std"}) != 1:
             vk.log("prepared worlds differ between driver processes (C08.WorldAgrees will report it)")
         if not any(e["ff"] and "statusbad" in e["args"]["txs"] for e in blocks):
             self._vacuity.append("vacuous drive: no block with an out-of-range status update under the feature-flag variable")
@@ -132,6 +132,7 @@ class C08(Pipeline):
         for e in events:
             byh.setdefault(e["h"], []).append(e)
         pick = None
+        byh = {h: evs for h, evs in byh.items() if evs[0]["args"].get("world", "std") == "std"}
         for h, evs in byh.items():
             acts = [e["act"] for e in evs]
             if "Restart" in acts and all(e.get("equal", True) for e in evs) and sum(1 for a in acts if a == "Block") >= 3:
